@@ -79,7 +79,8 @@ Definition joined_by (cfg : config) (s : st) (path : string) (k : N) (ua : N) (e
   m_scopes m = e_scopes e /\ m_booking m = e_booking e /\ m_exp m = e_exp e /\ m_ua m = ua /\ m_conn m = next_conn s /\
   m_read m = str_mem "read" (e_scopes e) /\ m_write m = str_mem "write" (e_scopes e) /\
   (m_read m = true \/ m_write m = true) /\
-  e_aud e = cfg_audience cfg /\ (e_nbf e <= clock s <= e_exp e)%Z /\ denied s (e_booking e) = false.
+  e_aud e = cfg_audience cfg /\ (e_nbf e <= clock s <= e_exp e)%Z /\ (clock s <= e_store_exp e)%Z /\
+  denied s (e_booking e) = false.
 
 Lemma ws_accept_cases cfg s path code ua :
   let s' := fst (ws_accept cfg s path code ua) in
@@ -93,13 +94,14 @@ Proof.
   destruct (prefix_of_path (slashify path) =? "session") eqn:Hp; cbn [negb]; [|left; cbn; auto 10].
   destruct code as [k|]; [|left; cbn; auto 10].
   destruct (clk k (codes s)) as [e|] eqn:Hk; [|left; cbn; auto 10].
+  destruct (e_store_exp e <? clock s)%Z eqn:Hse; [left; cbn; eauto 12|].
   destruct (entry_complete e); cbn [negb]; [|left; cbn; eauto 12].
   destruct (clock s <? e_nbf e)%Z eqn:Hn; [left; cbn; eauto 12|].
   destruct (e_aud e =? cfg_audience cfg) eqn:Ha; cbn [negb]; [|left; cbn; eauto 12].
   destruct (topic_of_path (slashify path) =? e_topic e) eqn:Ht; cbn [negb]; [|left; cbn; eauto 12].
   destruct (e_exp e - clock s <? 0)%Z eqn:Hx; [left; cbn; eauto 12|].
-  destruct (denied s (e_booking e)) eqn:Hd; [left; cbn; eauto 12|].
   destruct (str_mem "read" (e_scopes e) || str_mem "write" (e_scopes e)) eqn:Hrw; cbn [negb]; [|left; cbn; eauto 12].
+  destruct (denied s (e_booking e)) eqn:Hd; [left; cbn; eauto 12|].
   right. cbn [fst snd]. eexists k, e, _. split; [reflexivity|]. split; [reflexivity|]. split; [|reflexivity].
   apply String.eqb_eq in Hp, Ha, Ht. apply orb_true_iff in Hrw.
   unfold joined_by. cbn [m_topic m_scopes m_booking m_exp m_ua m_conn m_read m_write].
